@@ -75,8 +75,11 @@ impl Scenario for CryptSc {
                     p.faults.push(Step::new("dup", &[K_CT as i64, 0]));
                 }
             }
-            "sc-tamper" | "tl-tamper" => {
+            "sc-tamper" => {
                 p.faults.push(Step::new("perturb", &[x.below(24) as i64, x.below(1 << 24) as i64]));
+            }
+            "tl-tamper" => {
+                p.faults.push(Step::new("perturb", &[x.below(18) as i64, x.below(1 << 24) as i64]));
             }
             "sc-bitflip-all" | "tl-bitflip-all" => {
                 p.set("len", *x.pick(&[0i64, 1, 5, 29, 30, 31, 32, 33, 40]));
@@ -403,7 +406,7 @@ fn thresh_decrypt(plan: &Plan, lib: &dyn Lib, rec: &mut Rec) {
         let v = rec.call(lib, g, Op::DShareVerify, &[&dshares[i], &d.pk_shares[i], &ct2]);
         rec.expect("C12", "share-rejected-for-other-ciphertext", !v.is_ok(), || format!("other-ciphertext scheme={} g={} | share {} verifies against another ciphertext", sch, g.name(), i + 1));
     }
-    let mut check_set = |rec: &mut Rec, order: &[usize], how: &str| {
+    let check_set = |rec: &mut Rec, order: &[usize], how: &str| {
         let distinct: std::collections::BTreeSet<usize> = order.iter().copied().collect();
         let args: Vec<&[u8]> = std::iter::once(ct.as_slice()).chain(order.iter().map(|i| dshares[*i].as_slice())).collect();
         let a = rec.call(lib, g, Op::ScDecryptShares, &args);
@@ -662,7 +665,7 @@ fn tl_tamper(plan: &Plan, lib: &dyn Lib, rec: &mut Rec, all_bits: bool) {
     }
     // authenticated prefix of w: the length prefix and the message bytes; the rest is zero padding
     let auth = refimpl::leb128(msg.len() as u128).len() + msg.len();
-    let mut judge = |rec: &mut Rec, bytes: &[u8], label: &str| {
+    let judge = |rec: &mut Rec, bytes: &[u8], label: &str| {
         let o = rec.call(lib, g, Op::TlDecrypt, &[bytes, &sig]);
         let key = format!("{} scheme={} g={}", label, sch, g.name());
         let got = o.opt_value();
@@ -703,7 +706,25 @@ fn tl_tamper(plan: &Plan, lib: &dyn Lib, rec: &mut Rec, all_bits: bool) {
     let mut f = orig.clone();
     let up = Pt::from_bytes(&f.u).unwrap();
     let k = refimpl::scalar_from_u64(2 + salt % 500);
-    let label: &'static str = match mode % 16 {
+    let label: &'static str = match mode % 18 {
+        16 | 17 => {
+            // someone who knows the plaintext rewrites the (unauthenticated-by-itself) length prefix in place:
+            // w' = w xor P xor P', P' = varint(V) over the leading bytes, V around a width boundary of the length arithmetic
+            let sh = *x.pick(&[7u32, 14, 21, 31, 32, 63, 64, 127, 128]);
+            let base: u128 = if sh == 128 { 0 } else { 1u128 << sh };
+            let off = if mode % 18 == 16 { x.below(3) as i128 - 1 } else { x.below(49) as i128 - 24 };
+            let v = if off < 0 { base.wrapping_sub((-off) as u128) } else { base.wrapping_add(off as u128) };
+            let newp = refimpl::leb128(v);
+            let mut plain = refimpl::leb128(msg.len() as u128);
+            plain.extend_from_slice(&msg);
+            plain.resize(f.w.len().max(plain.len()), 0);
+            for (i, nb) in newp.iter().enumerate() {
+                if i < f.w.len() {
+                    f.w[i] ^= plain[i] ^ nb;
+                }
+            }
+            "w-length-prefix-rewritten"
+        }
         0 => { f.u = up.neg().to_bytes(); "u-neg" }
         1 => { f.u = up.add(&up.gen_like()).to_bytes(); "u-plus-G" }
         2 => { f.u = up.mul(&k).to_bytes(); "u-times-k" }
@@ -722,7 +743,7 @@ fn tl_tamper(plan: &Plan, lib: &dyn Lib, rec: &mut Rec, all_bits: bool) {
         _ => { for b in f.w.iter_mut().skip(auth) { *b ^= 0xff; } "w-padding-inverted" }
     };
     rec.fault("byz-relay");
-    rec.case(&[13, g as u64, scheme as u64, mode as u64 % 16, (msg.len() > 31) as u64, 2], true);
+    rec.case(&[13, g as u64, scheme as u64, mode as u64 % 18, (msg.len() > 31) as u64, 2], true);
     let mut c = Courier::new(plan.seed, 2);
     for r in c.ship(0, 1, K_CT, 0, vec![f.build()]) {
         judge(rec, &r.parts[0], label);
